@@ -80,9 +80,11 @@ extern "C" int pthread_mutex_lock(pthread_mutex_t* m) {
   if (tl_in_asmjit) g_lock_acquisitions.fetch_add(1, std::memory_order_relaxed);
   return f(m);
 }
-struct InAsmjit { InAsmjit() { tl_in_asmjit++; } ~InAsmjit() { tl_in_asmjit--; } };
+static std::atomic<int> g_inside {0};      // threads currently inside an allocator / runtime call (relaxed: no ordering implied)
+struct InAsmjit { InAsmjit() { tl_in_asmjit++; g_inside.fetch_add(1, std::memory_order_relaxed); } ~InAsmjit() { g_inside.fetch_sub(1, std::memory_order_relaxed); tl_in_asmjit--; } };
 #else
-struct InAsmjit { };
+static std::atomic<int> g_inside {0};
+struct InAsmjit { InAsmjit() { g_inside.fetch_add(1, std::memory_order_relaxed); } ~InAsmjit() { g_inside.fetch_sub(1, std::memory_order_relaxed); } };
 #endif
 
 // -- violations ----------------------------------------------------------------------------------------------
@@ -133,13 +135,32 @@ extern "C" int __wrap_close(int fd) {
 }
 
 static std::atomic<uint64_t> g_maps_made {0}, g_unmaps_made {0}, g_map_bytes_now {0};
-#if defined(VERIF_TRACK_MAPS)
+// Fault injection (both flavours, -Wl,--wrap=mmap): while a thread has tl_refuse_maps set, every mmap() AsmJit issues from
+// that thread fails with ENOMEM, exactly as the OS refuses a block it cannot map (address-space limit, overcommit, memfd
+// quota). The other threads keep running their normal operations on the same allocator.
+static thread_local int tl_refuse_maps = 0;
+static std::atomic<uint64_t> g_refused_maps {0}, g_refused_maps_contended {0};
+static inline bool refuse_this_map() {
+  if (!tl_refuse_maps) return false;
+  g_refused_maps.fetch_add(1, std::memory_order_relaxed);
+  if (g_inside.load(std::memory_order_relaxed) >= 3) g_refused_maps_contended.fetch_add(1, std::memory_order_relaxed);   // this thread + >= 2 others
+  errno = ENOMEM;
+  return true;
+}
 extern "C" void* __real_mmap(void* addr, size_t len, int prot, int flags, int fd, off_t off);
+#if !defined(VERIF_TRACK_MAPS)
+extern "C" void* __wrap_mmap(void* addr, size_t len, int prot, int flags, int fd, off_t off) {
+  if (refuse_this_map()) return MAP_FAILED;
+  return __real_mmap(addr, len, prot, flags, fd, off);
+}
+#endif
+#if defined(VERIF_TRACK_MAPS)
 extern "C" int __real_munmap(void* addr, size_t len);
 static std::mutex g_map_mutex;
 static std::map<uintptr_t, size_t> g_maps;              // regions mapped through libasmjit.a and not unmapped yet
 
 extern "C" void* __wrap_mmap(void* addr, size_t len, int prot, int flags, int fd, off_t off) {
+  if (refuse_this_map()) return MAP_FAILED;
   void* p = __real_mmap(addr, len, prot, flags, fd, off);
   if (p != MAP_FAILED) {
     std::lock_guard<std::mutex> g(g_map_mutex);
@@ -270,6 +291,7 @@ struct Shared {
   bool imm = false, rt_imm = false;
   void* anchor = nullptr;         // a function in the runtime's memory that is never released (near target for calls)
   uint32_t default_pattern = 0;   // what a default-constructed allocator reports
+  uint64_t doomed_every = 0;      // 1 operation in n is preceded by a request whose block mapping is refused (0 = never)
 };
 
 static Shared S;
@@ -315,6 +337,7 @@ struct Counters {
   uint64_t emit[12] {};
   uint64_t emit_log_compared = 0;
   uint64_t rt_near_call_adds = 0, rt_real_shrinks = 0;
+  uint64_t doomed_allocs = 0, doomed_refused = 0, doomed_served = 0, doomed_adds = 0;
   uint64_t emit_validated = 0, emit_api_probes = 0, emit_with_features = 0, emit_multi_section = 0, emit_const_pool = 0, emit_jump_table = 0;
 };
 
@@ -460,6 +483,65 @@ struct Worker {
     live.push_back(std::move(o));
     verify(live.back(), "after-stamp");
     g_pub[r.below(64)].store((uintptr_t)s.rx(), std::memory_order_relaxed);
+  }
+
+  // A request that needs a new block while the OS refuses to map one (fault injected into this thread's mmap calls): the call
+  // must fail cleanly - error, empty span - with the other threads in the middle of their operations on the same allocator,
+  // and the allocator must stay usable (everything that follows in this run checks that).
+  Rng r2 {0};
+  void do_doomed_alloc() {
+    uint64_t refused_before = g_refused_maps.load(std::memory_order_relaxed);
+    bool on_rt = S.anchor && r2.chance(1, 4);
+    if (on_rt) {
+      // JitRuntime::add of a function bigger than anything a block of the runtime's allocator has free
+      CodeHolder code;
+      code.init(S.rt->environment(), S.rt->cpu_features());
+      x86::Assembler a(&code);
+      a.mov(x86::eax, 7);
+      a.ret();
+      std::vector<uint8_t> big(size_t(S.cfg.block_size) * 40 + 4096, 0xCC);
+      a.embed(big.data(), big.size());
+      void* fn = nullptr;
+      uint64_t t0 = now_ns();
+      Error e;
+      tl_refuse_maps = 1;
+      { InAsmjit ia; e = S.rt->add(&fn, &code); }
+      tl_refuse_maps = 0;
+      uint64_t t1 = now_ns();
+      rec(R_ADD, t0, t1);
+      c.doomed_adds++;
+      bool refused = g_refused_maps.load(std::memory_order_relaxed) > refused_before;
+      if (e == Error::kOk && fn) { c.doomed_served++; if (S.rt->_release(fn) != Error::kOk) fail("rt-release-failed", "release of a big function failed"); return; }
+      if (refused) c.doomed_refused++;
+      if (e == Error::kOk || fn) fail("refused-block:add-reports-success", who("JitRuntime::add") + " returned Ok/non-null although the block mapping was refused");
+      return;
+    }
+    size_t size = size_t(S.block_size) * (40 + r2.below(24)) + S.gran * r2.below(8);     // bigger than any free run the workload leaves
+    JitAllocator::Span s;
+    uint64_t t0 = now_ns();
+    Error e;
+    tl_refuse_maps = 1;
+    { InAsmjit ia; e = S.alloc->alloc(Out(s), size); }
+    tl_refuse_maps = 0;
+    uint64_t t1 = now_ns();
+    rec(O_ALLOC, t0, t1);
+    c.doomed_allocs++;
+    bool refused = g_refused_maps.load(std::memory_order_relaxed) > refused_before;
+    if (e == Error::kOk) {
+      // served from memory that was already mapped: an ordinary span
+      c.doomed_served++;
+      if (!s.rx() || s.size() < size) { fail("alloc-bad-size", who("alloc") + " of a large span returned a short span"); return; }
+      Error er;
+      { InAsmjit ia; er = S.alloc->release(s.rx()); }
+      if (er != Error::kOk) fail("release-failed", who("release") + " of a large span failed");
+      return;
+    }
+    if (refused) c.doomed_refused++;
+    if (s.rx() || s.rw() || s.size()) {
+      char b[200];
+      snprintf(b, sizeof b, "alloc(%zu) failed with error %d (the block mapping was refused) but left rx=%p size=%zu in the span", size, int(e), s.rx(), s.size());
+      fail("refused-block:span-not-empty", b);
+    }
   }
 
   void drop(size_t i) {
@@ -837,8 +919,10 @@ struct Worker {
     const int* w = W[S.cfg.profile & 3];
     int total = 0;
     for (int k = 0; k < 12; k++) total += w[k];
+    if (!r2.s) r2 = Rng(r.s ^ 0xD00D00D5ull);     // side stream: the main stream of operations stays as it was
     for (size_t n = 0; n < nops; n++) {
       noise();
+      if (S.doomed_every && r2.below(S.doomed_every) == 0) do_doomed_alloc();
       int x = int(r.below(total)), k = 0;
       while (x >= w[k]) { x -= w[k]; k++; }
       size_t pick = live.empty() ? 0 : (r.chance(1, 3) ? live.size() - 1 : r.below(live.size()));
@@ -1721,6 +1805,7 @@ int main(int argc, char** argv) {
   size_t reader_threads = args.u64("reader-threads", 2);
   size_t sentinel_threads = args.u64("sentinel-threads", 2);
   cfg.fill_pattern = (uint32_t)args.u64("fill-pattern", 0);
+  S.doomed_every = args.u64("doomed-every", 120);
   g_variants = args.u64("variants", 24);
   bool no_warmup = args.has("no-warmup");   // debugging aid only: shows what the precondition protects against
 
@@ -1948,6 +2033,7 @@ int main(int argc, char** argv) {
     tot.bytes_verified += w->c.bytes_verified; tot.fill_checked += w->c.fill_checked; tot.fn_calls += w->c.fn_calls;
     tot.exchanged += w->c.exchanged; tot.yields += w->c.yields; tot.sleeps += w->c.sleeps;
     tot.rt_near_call_adds += w->c.rt_near_call_adds; tot.rt_real_shrinks += w->c.rt_real_shrinks;
+    tot.doomed_allocs += w->c.doomed_allocs; tot.doomed_refused += w->c.doomed_refused; tot.doomed_served += w->c.doomed_served; tot.doomed_adds += w->c.doomed_adds;
   }
   for (int k = 0; k < OP_COUNT; k++) tot.ops[k] += walker_c.ops[k];
   for (Emitter* e : emitters) {
@@ -2010,6 +2096,8 @@ int main(int argc, char** argv) {
   num("emit_validated", tot.emit_validated); num("emit_api_probes", tot.emit_api_probes); num("emit_with_host_features", tot.emit_with_features);
   num("emit_multi_section", tot.emit_multi_section); num("emit_const_pool", tot.emit_const_pool);
   num("empty_policy_checks", g_empty_policy_checks);
+  num("doomed_allocs", tot.doomed_allocs); num("doomed_adds", tot.doomed_adds); num("doomed_calls_refused", tot.doomed_refused); num("doomed_served_from_mapped_memory", tot.doomed_served);
+  num("refused_block_mappings", g_refused_maps.load()); num("refused_block_mappings_with_2_other_threads_inside", g_refused_maps_contended.load());
   num("custom_pattern", (cfg.options & 0x10000000u) ? 1 : 0);
   num("intervals_enabled",
 #if defined(__SANITIZE_THREAD__)
